@@ -155,6 +155,18 @@ def evalPP (st : PollSt) (args : List String) : Option (PollSt × Obs × Option 
       let (x, _) ← getAt st.tab (← a.toNat?)
       let (y, _) ← getAt st.tab (← b.toNat?)
       some (st, [cBool (x == y)], some [1])
+  | ["pollfx", a, b, ch] => do
+      -- `a`: the scanner after `poll ch`, `b`: a copy made just before.  C13: a poll before the timeout, and a poll
+      -- with nothing pending on that channel, has no effect — the real `==` must then say so.
+      let (x, _) ← getAt st.tab (← a.toNat?)
+      let (y, _) ← getAt st.tab (← b.toNat?)
+      let ch ← ch.toNat?
+      let noEffectDue : Bool := match y[ch]? with
+        | some c => (match c.state with
+            | .valuePending _ arrival _ _ => decide (st.now - arrival < c.timeout)
+            | _ => true)
+        | none => false
+      some (st, [cBool (x == y)], if noEffectDue then some [1] else none)
   | ["isnew", a, timeout] => do        -- == new(timeout), new(0) == default()
       let (x, _) ← getAt st.tab (← a.toNat?)
       let t ← timeout.toNat?
